@@ -33,6 +33,8 @@ var loops = []struct{ Name, Src string }{
 	{"nested-closures", `var mk = function(i) { return function() { return i + 1; }; }; var n = 0; while (true) { n = mk(n)(); }`},
 	{"bindings-ops", `var b = _.bindings; b.n = 0; while (true) { b.n++; b["x"] = {n: b.n}; }`},
 	{"emit-in-loop-bounded", `var i = 0; while (true) { i++; if (i % 100000 === 0 && i < 300000) { _.out({i: i}); } }`},
+	{"returned-object-with-looping-getter", `return {get likes() { for (;;) { } }};`},
+	{"returned-object-with-recursive-getter", `return {a: 1, get deep() { function f(n) { return f(n + 1) + 1; } return f(0); }};`},
 	{"do-while-with-calls", `function g(x) { return x * 2; } var v = 1; do { v = g(v) % 1000003; } while (true);`},
 }
 
@@ -65,7 +67,7 @@ func ecmaGoroutines() (int, string) {
 }
 
 func Run(cfg fw.Config, rec *fw.Rec) {
-	rec.Rule = "12 non-terminating interpreted scripts (while/for with property, array and string operations, unbounded and mutual recursion, loops inside try/catch and try/finally, closures, binding mutation, emitting) x deadlines {already expired, 0, 1, 5, 20, 100, 300 ms} x {deadline, asynchronous cancel at a pseudo-random instant, cancel of a context that also has a far deadline, cancel of an ancestor context} x concurrency {1, 4, 16, 64} x {Interpreter.Exec, Spec.Walk with 3 error settings}; each call must return the timeout error no later than deadline + 10 s (hard bound; observed latencies reported), the walk must route it like any action error, and after each combination no goroutine with an interpreter frame may remain (polled up to 5 s); non-trivial = execution that was interrupted; distinct by (script, deadline, cancel mode, concurrency, via)"
+	rec.Rule = "14 non-terminating interpreted scripts (while/for with property, array and string operations, unbounded and mutual recursion, loops inside try/catch and try/finally, closures, binding mutation, emitting, looping getters of the returned object) x deadlines {already expired, 0, 1, 5, 20, 100, 300 ms} x {deadline, asynchronous cancel at a pseudo-random instant, cancel of a context that also has a far deadline, cancel of an ancestor context} x concurrency {1, 4, 16, 64} x {Interpreter.Exec, Spec.Walk with 3 error settings}; each call must return the timeout error no later than deadline + 10 s (hard bound; observed latencies reported), the walk must route it like any action error, and after each combination no goroutine with an interpreter frame may remain (polled up to 5 s); non-trivial = execution that was interrupted; distinct by (script, deadline, cancel mode, concurrency, via)"
 	rec.Required = []string{"interrupted", "interrupted_async_cancel", "interrupted_by_cancel_before_a_far_deadline", "routed_as_action_error", "no_goroutine_left", "concurrency_64", "already_expired"}
 	rec.Assume = []string{"time is spent in interpreted code, not in one long built-in call", "hard bound deadline + 10 s; lateness below the bound is reported, not judged"}
 	interp := ecmascript.NewInterpreter()
